@@ -6,6 +6,7 @@
   the correspondence run of `./check C03`.
 -/
 import ClairModel.Proofs.Matchers
+import ClairModel.Proofs.MatchersLang
 import ClairModel.Gen.Matchers
 
 namespace ClairModel.Props.C03
@@ -409,6 +410,97 @@ theorem monotone_osv {V : Type} (S : Scheme V) (hS : TotalPre S.cmp) (p p' : Pkg
   simp only [Out.ok.injEq] at h ⊢
   exact inRange_mono S hS h hle hin
 
+/-- python: the range of the advisory is honoured at both ends (pep440 order). -/
+theorem range_honoured_python (p : Pkg) (v : Vuln) (rv : Pep440.Ver) (q : List (Str × Str))
+    (intro fix la : Option Pep440.Ver)
+    (hF : v.fixed ≠ []) (hp : Pep440.parse p.version = some rv) (hq : parseQuery v.fixed = some q)
+    (hi : Bound pythonScheme (qget q kIntroduced) intro) (hf : Bound pythonScheme (qget q kFixed) fix)
+    (hl : fix = none → Bound pythonScheme (qget q kLastAffected) la) :
+    vulnerablePython p v = .ok (inRange pythonScheme rv intro fix la) :=
+  vulnerableOsv_eq pythonScheme p v rv q intro fix la hF hp hq hi hf hl
+
+/-- ruby: likewise (RubyGems order). -/
+theorem range_honoured_ruby (p : Pkg) (v : Vuln) (rv : List Gem.Seg) (q : List (Str × Str))
+    (intro fix la : Option (List Gem.Seg))
+    (hF : v.fixed ≠ []) (hp : Gem.parse p.version = some rv) (hq : parseQuery v.fixed = some q)
+    (hi : Bound rubyScheme (qget q kIntroduced) intro) (hf : Bound rubyScheme (qget q kFixed) fix)
+    (hl : fix = none → Bound rubyScheme (qget q kLastAffected) la) :
+    vulnerableRuby p v = .ok (inRange rubyScheme rv intro fix la) :=
+  vulnerableOsv_eq rubyScheme p v rv q intro fix la hF hp hq hi hf hl
+
+/-- java: likewise (Maven `Compare`). -/
+theorem range_honoured_java (p : Pkg) (v : Vuln) (rv : Maven.MV) (q : List (Str × Str))
+    (intro fix la : Option Maven.MV)
+    (hF : v.fixed ≠ []) (hp : Maven.parse p.version = some rv) (hq : parseQuery v.fixed = some q)
+    (hi : Bound javaScheme (qget q kIntroduced) intro) (hf : Bound javaScheme (qget q kFixed) fix)
+    (hl : fix = none → Bound javaScheme (qget q kLastAffected) la) :
+    vulnerableJava p v = .ok (inRange javaScheme rv intro fix la) :=
+  vulnerableOsv_eq javaScheme p v rv q intro fix la hF hp hq hi hf hl
+
+/-- python: monotone down to the introduced bound, for all versions. -/
+theorem monotone_python (p p' : Pkg) (v : Vuln) (rv rv' : Pep440.Ver)
+    (q : List (Str × Str)) (intro fix la : Option Pep440.Ver)
+    (hF : v.fixed ≠ []) (hp : Pep440.parse p.version = some rv) (hp' : Pep440.parse p'.version = some rv')
+    (hq : parseQuery v.fixed = some q)
+    (hi : Bound pythonScheme (qget q kIntroduced) intro) (hf : Bound pythonScheme (qget q kFixed) fix)
+    (hl : fix = none → Bound pythonScheme (qget q kLastAffected) la)
+    (h : vulnerablePython p v = .ok true) (hle : Pep440.cmp rv' rv ≠ .gt)
+    (hin : ∀ iv, intro = some iv → Pep440.cmp rv' iv ≠ .lt) :
+    vulnerablePython p' v = .ok true :=
+  monotone_osv pythonScheme pythonScheme_totalPre p p' v rv rv' q intro fix la hF hp hp' hq hi hf hl h hle hin
+
+/-- ruby: monotone down to the introduced bound, for all versions. -/
+theorem monotone_ruby (p p' : Pkg) (v : Vuln) (rv rv' : List Gem.Seg)
+    (q : List (Str × Str)) (intro fix la : Option (List Gem.Seg))
+    (hF : v.fixed ≠ []) (hp : Gem.parse p.version = some rv) (hp' : Gem.parse p'.version = some rv')
+    (hq : parseQuery v.fixed = some q)
+    (hi : Bound rubyScheme (qget q kIntroduced) intro) (hf : Bound rubyScheme (qget q kFixed) fix)
+    (hl : fix = none → Bound rubyScheme (qget q kLastAffected) la)
+    (h : vulnerableRuby p v = .ok true) (hle : Gem.cmp rv' rv ≠ .gt)
+    (hin : ∀ iv, intro = some iv → Gem.cmp rv' iv ≠ .lt) :
+    vulnerableRuby p' v = .ok true :=
+  monotone_osv rubyScheme rubyScheme_totalPre p p' v rv rv' q intro fix la hF hp hp' hq hi hf hl h hle hin
+
+/-
+  Full statement for java (FALSE of the unchanged code: Maven `Compare` is not
+  transitive, C12 findings maven-intransitive / maven-zero-intransitive):
+    … → vulnerableJava p v = .ok true → Maven.cmp rv' rv ≠ .gt → … → vulnerableJava p' v = .ok true
+-/
+
+/-- java: monotone down to the introduced bound when the older version, the
+    reported version and the upper bound are pairwise `Maven.compat` (position by
+    position no string component meets a list component and no number 0 meets a
+    string or list — the fragment on which C12 proves `Compare` transitive). -/
+theorem monotone_java_partial (p p' : Pkg) (v : Vuln) (rv rv' : Maven.MV)
+    (q : List (Str × Str)) (intro fix la : Option Maven.MV)
+    (hF : v.fixed ≠ []) (hp : Maven.parse p.version = some rv) (hp' : Maven.parse p'.version = some rv')
+    (hq : parseQuery v.fixed = some q)
+    (hi : Bound javaScheme (qget q kIntroduced) intro) (hf : Bound javaScheme (qget q kFixed) fix)
+    (hl : fix = none → Bound javaScheme (qget q kLastAffected) la)
+    (h : vulnerableJava p v = .ok true) (hle : Maven.cmp rv' rv ≠ .gt)
+    (hin : ∀ iv, intro = some iv → Maven.cmp rv' iv ≠ .lt)
+    (hc : Maven.compat rv' rv = true)
+    (hcf : ∀ f, fix = some f → Maven.compat rv f = true ∧ Maven.compat rv' f = true)
+    (hcl : ∀ l, la = some l → Maven.compat rv l = true ∧ Maven.compat rv' l = true) :
+    vulnerableJava p' v = .ok true := by
+  unfold vulnerableJava at h ⊢
+  rw [vulnerableOsv_eq javaScheme p v rv q intro fix la hF hp hq hi hf hl] at h
+  rw [vulnerableOsv_eq javaScheme p' v rv' q intro fix la hF hp' hq hi hf hl]
+  simp only [Out.ok.injEq] at h ⊢
+  exact inRange_mono' javaScheme h
+    (fun f hf' hlt => maven_lt_down hc (hcf f hf').1 (hcf f hf').2 hle hlt)
+    (fun l hl' hl2 => maven_le_down hc (hcl l hl').1 (hcl l hl').2 hle hl2) hin
+
+/-- The statement without the compatibility hypothesis fails: `1` is reported
+    for `fixed=1.sp`, `1.0.alpha` is older than `1`, yet it is not reported. -/
+theorem monotone_java_counterexample :
+    vulnerableJava { version := "1".toList } { fixed := "fixed=1.sp".toList } = .ok true ∧
+    (do let a ← Maven.parse "1.0.alpha".toList
+        let b ← Maven.parse "1".toList
+        pure (Maven.cmp a b)) = some .lt ∧
+    vulnerableJava { version := "1.0.alpha".toList } { fixed := "fixed=1.sp".toList } = .ok false := by
+  decide
+
 /-- `url.ParseQuery` of what the OSV updater writes (`url.Values.Encode`):
     `fixed=F&introduced=I` decodes to those two values. -/
 example : (parseQuery "fixed=1.2.3&introduced=1.0%2Brc1".toList).map
@@ -506,6 +598,11 @@ example : vulnerableDebian { version := "1.0-1".toList } { fixed := "1.0-2".toLi
 example : vulnerableUbuntu { version := "1.0-1".toList } { fixed := "0:0".toList } = .ok true := by decide
 
 example : vulnerableAlpine { version := "1.2.3-r0".toList } { fixed := "1.2.3-r1".toList } = .ok true := by decide
+
+example : vulnerablePython { version := "1.0rc1".toList } { fixed := "fixed=1.0&introduced=0.9".toList } = .ok true := by
+  decide
+
+example : vulnerableRuby { version := "1.0.0".toList } { fixed := "lastAffected=1.0".toList } = .ok true := by decide
 
 example : vulnerableAlpine { version := "1.2.3-r1".toList } { fixed := "1.2.3_rc1-r0".toList } = .ok false := by decide
 
